@@ -105,16 +105,34 @@ theorem C05_models_entry_any (inner : List Node) (as1 as2 as3 : List String) :
   simp [decoupleVModels]
 
 /-- a `v-models` entry `[x, 'my_arg']` on a component names the prop `my_arg` (all of it) -/
-theorem C05_models_entry_underscore (x : Node) (st : St) :
+theorem C05_models_entry_underscore (x : Node) (st : St) (hx : isAssignmentTarget x = true) :
     (parseVModel (.mk .jsxExprContainer [] [nArray [nArg x, nArg (nStr "my_arg")]]) true none [] st).1
       = .vmodel (some (nStr "my_arg")) (some (nStr "my_arg")) none x := by
-  simp [parseVModel, containerExpr, nArray, nList, arrayElems, plainElem, nArg, nStr, transformModifiers, setOfList]
+  simp [parseVModel, containerExpr, nArray, nList, arrayElems, plainElem, nArg, nStr, transformModifiers, setOfList, hx]
 
 /-- `v-model_trim={[x, 'arg']}` on a component: the argument is the second element and the modifier suffix is kept
     (fix 673c257: it was dropped when the array had an argument but no modifier list). -/
-theorem C05_array_argument_keeps_suffix_modifiers (x : Node) (st : St) :
+theorem C05_array_argument_keeps_suffix_modifiers (x : Node) (st : St) (hx : isAssignmentTarget x = true) :
     (parseVModel (.mk .jsxExprContainer [] [nArray [nArg x, nArg (nStr "arg")]]) true none ["trim"] st).1
       = .vmodel (some (nStr "arg")) (some (nStr "arg")) (transformModifiers ["trim"] true) x := by
-  simp [parseVModel, containerExpr, nArray, nList, arrayElems, plainElem, nArg, nStr, setOfList, setInsert]
+  simp [parseVModel, containerExpr, nArray, nList, arrayElems, plainElem, nArg, nStr, setOfList, setInsert, hx]
+
+/-- A `v-model` value that cannot stand on the left of `=` (`x + 1`, `f()`, `x?.y`, `this`, a literal) is REPORTED and replaced by
+    the placeholder (fix 778956f: the listener `(x + 1) = $event` used to be emitted without a diagnostic). -/
+theorem C05_unassignable_target_reported (cas : List String) (e : Node) (isComp : Bool) (arg : Option Node) (rest : List String) (st : St)
+    (hne : ∀ a k, e ≠ .mk .jsxEmpty a k) (harr : arrayElems e = none) (hx : isAssignmentTarget e = false) :
+    (parseVModel (.mk .jsxExprContainer cas [e]) isComp arg rest st).2
+      = st.err "Error: The value of `v-model` must be an assignable expression (an identifier or a member expression)." := by
+  have hc : containerExpr (.mk .jsxExprContainer cas [e]) = some e := by
+    unfold containerExpr
+    split
+    · rename_i heq
+      simp at heq
+      obtain ⟨_, rfl⟩ := heq
+      split
+      · exact absurd rfl (hne _ _)
+      · rfl
+    · rename_i hh; exact absurd rfl (hh _ _)
+  simp [parseVModel, hc, harr, hx]
 
 end VueJsx
